@@ -111,3 +111,28 @@ def guarded(ctx, rule: str, targets, fn, *args, **kwargs):
             ctx.ob(rule, ", ".join(targets), True, f"path rules do not recognise this spelling ({str(exc)[:160]}); the summaries equal the reviewed models on which the rules hold", key="by-model " + fn.__name__)
             return None
         raise
+
+
+def deferred(ctx, rule: str, targets, fn, *args, **kwargs):
+    """Path rules about a pure data transformation whose summary is precise: the rules run first; if they object (or cannot
+    read the spelling) although every function of the group has exactly the summary of its reviewed model, the objection
+    is about the spelling, not the behaviour - the reviewed model is the text the rules were established on - and one
+    obligation records the agreement.  Otherwise the rules' verdicts stand.  Use only where the summary captures the whole
+    clause (no locking / threading aspects, which summaries do not describe)."""
+    sub = type(ctx)(ctx.prop, ctx.tier, ctx.seed, ctx.repo)
+    err = None
+    try:
+        fn(sub, *args, **kwargs)
+    except AnalysisError as exc:
+        err = exc
+    failing = [o for o in sub.obligations if not o["ok"]]
+    for kind in ("files", "functions"):
+        ctx.analysed[kind] |= sub.analysed[kind]
+    if (failing or err is not None) and targets and all(agrees(ctx, t) for t in targets):
+        ctx.obligations.extend(o for o in sub.obligations if o["ok"])
+        what = str(err)[:120] if err is not None else "; ".join(o["what"][:60] for o in failing[:2])
+        ctx.ob(rule, ", ".join(targets), True, f"path rules do not apply to this spelling ({what}); the summaries equal the reviewed models on which the rules hold", key="by-model " + fn.__name__)
+        return
+    ctx.obligations.extend(sub.obligations)
+    if err is not None:
+        raise err
